@@ -605,7 +605,65 @@ def _interp_block(repo, cls, fn, stmts, ctx, res, gens):
             ctx2["guards"] = ctx["guards"] + [guard_text(ast.UnaryOp(op=ast.Not(), operand=asub(st.test, ctx)))]
             _interp_block(repo, cls, fn, stmts[k + 1:], ctx2, res, gens)
             return
+        # a branch that leaves a *formula-valued* local (a point, an expression) different from what the other branch leaves: the rest of the
+        # block means something else after each branch, so it is interpreted once per branch, under that branch's guard
+        if isinstance(st, ast.If) and _is_same_sample_test(asub(st.test, ctx), ctx) is None and _assigns_names(st) and ctx.get("split_depth", 0) < 3:
+            div = _divergent_locals(repo, cls, fn, st, ctx, gens)
+            if div:
+                test = asub(st.test, ctx)
+                for branch, guard in ((st.body, guard_text(test)), (st.orelse, guard_text(test, False))):
+                    other = guard_text(test, False) if guard == guard_text(test) else guard_text(test)
+                    if other in ctx["guards"]:
+                        continue          # this branch contradicts a decision already taken on the same test
+                    ctx_b = _fork_ctx(ctx)
+                    ctx_b["guards"] = ctx["guards"] + [guard]
+                    ctx_b["split_depth"] = ctx.get("split_depth", 0) + 1
+                    _interp_block(repo, cls, fn, list(branch) + list(stmts[k + 1:]), ctx_b, res, gens)
+                return
         _interp_stmt(repo, cls, fn, st, ctx, res, gens)
+
+
+def _fork_ctx(ctx):
+    c = dict(ctx)
+    for key in ("env", "matrices", "psd", "attr_sorts", "alias"):
+        if isinstance(c.get(key), dict):
+            c[key] = dict(c[key])
+    if isinstance(c.get("tables"), dict):
+        c["tables"] = {k0: list(v0) for k0, v0 in c["tables"].items()}
+    return c
+
+
+def _assigns_names(st):
+    return any(isinstance(n0, ast.Assign) and any(isinstance(t0, (ast.Name, ast.Tuple)) for t0 in n0.targets) for b0 in (st.body, st.orelse) for x0 in b0 for n0 in ast.walk(x0))
+
+
+def _divergent_locals(repo, cls, fn, st, ctx, gens):
+    """names that hold a point / expression after one branch of `st` and something else (or another point / expression) after the other"""
+    envs = []
+    for branch in (st.body, st.orelse):
+        ctx_b = _fork_ctx(ctx)
+        scratch = HookResult()
+        scratch.fn, scratch.cls = fn, cls
+        try:
+            _interp_block(repo, cls, fn, list(branch), ctx_b, scratch, gens)
+        except AnalysisError:
+            return []
+        envs.append(ctx_b["env"])
+    out = []
+    for name in set(envs[0]) | set(envs[1]):
+        a, b = envs[0].get(name), envs[1].get(name)
+        if a is b:
+            continue
+        fa, fb = isinstance(a, (PointV, ExprV, TupleV)), isinstance(b, (PointV, ExprV, TupleV))
+        if not (fa or fb):
+            continue
+        try:
+            same = fa and fb and type(a) is type(b) and not isinstance(a, TupleV) and a.equals(b)
+        except Exception:
+            same = False
+        if not same:
+            out.append(name)
+    return out
 
 
 SINK_ATTRS = ("list_of_class_constraints", "list_of_class_psd", "list_of_constraints", "list_of_psd")
